@@ -248,7 +248,7 @@ def queries(tier):
                         hints={"wrapped": {"write_discard": 0, "read_discard": 0}},
                         desc="reachability twins (commit, rollback, wrap-around, full/empty corner requests)"))
         if depth >= 2:
-            Kp = 2 * depth + 10 if quick else min(2 * depth + 11, 17)
+            Kp = 2 * depth + 10 if quick else (min(2 * depth + 11, 17) if depth <= 3 else 15)
             qs.append(Query(f"bmc_plain_{tag}", f, Kp, covers=[], layer=plain, split=False,
                             timeout=600 if depth <= 3 else 240, required=depth <= 3,
                             desc="restricted layer: both commits tied to 1 and no discards (the degraded "
